@@ -275,4 +275,5 @@ def validate():
                     for error in errors:
                         sys.stderr.write(f"{error}\n")
 
-    sys.exit(tot_errors)
+    # An exit status is taken modulo 256: don't let 256 errors become a success
+    sys.exit(min(tot_errors, 255))
